@@ -973,27 +973,26 @@ func (s *S3Proxy) GetObjectAttributes(ctx context.Context, input *s3.GetObjectAt
 		return s3response.GetObjectAttributesResponse{}, handleError(err)
 	}
 
-	parts := s3response.ObjectParts{}
-	objParts := out.ObjectParts
-	if objParts != nil {
+	// ObjectParts only if the endpoint sent it (an empty element was always added), with
+	// the markers it sent (they were taken over only when they did NOT parse)
+	var parts *s3response.ObjectParts
+	if objParts := out.ObjectParts; objParts != nil {
+		parts = &s3response.ObjectParts{Parts: objParts.Parts}
 		if objParts.PartNumberMarker != nil {
-			partNumberMarker, err := strconv.Atoi(*objParts.PartNumberMarker)
-			if err != nil {
-				parts.PartNumberMarker = partNumberMarker
+			if n, err := strconv.Atoi(*objParts.PartNumberMarker); err == nil {
+				parts.PartNumberMarker = n
 			}
-			if objParts.NextPartNumberMarker != nil {
-				nextPartNumberMarker, err := strconv.Atoi(*objParts.NextPartNumberMarker)
-				if err != nil {
-					parts.NextPartNumberMarker = nextPartNumberMarker
-				}
+		}
+		if objParts.NextPartNumberMarker != nil {
+			if n, err := strconv.Atoi(*objParts.NextPartNumberMarker); err == nil {
+				parts.NextPartNumberMarker = n
 			}
-			if objParts.IsTruncated != nil {
-				parts.IsTruncated = *objParts.IsTruncated
-			}
-			if objParts.MaxParts != nil {
-				parts.MaxParts = int(*objParts.MaxParts)
-			}
-			parts.Parts = objParts.Parts
+		}
+		if objParts.IsTruncated != nil {
+			parts.IsTruncated = *objParts.IsTruncated
+		}
+		if objParts.MaxParts != nil {
+			parts.MaxParts = int(*objParts.MaxParts)
 		}
 	}
 
@@ -1002,8 +1001,11 @@ func (s *S3Proxy) GetObjectAttributes(ctx context.Context, input *s3.GetObjectAt
 		LastModified: out.LastModified,
 		ObjectSize:   out.ObjectSize,
 		StorageClass: out.StorageClass,
-		ObjectParts:  &parts,
+		ObjectParts:  parts,
 		Checksum:     out.Checksum,
+		// answered as x-amz-version-id / x-amz-delete-marker headers
+		VersionId:    out.VersionId,
+		DeleteMarker: out.DeleteMarker,
 	}, nil
 }
 
